@@ -1,6 +1,6 @@
 (* C11 — EDF round trip: what encodes, decodes to the same value.
    Property theorems only; definitions in Edf/Model.v, proofs in Edf/Proofs.v. *)
-From Ergo Require Import Common.Base Common.Bytes Common.Codec Edf.Model Edf.Proofs Edf.Negotiate Edf.NegotiateProofs.
+From Ergo Require Import Common.Base Common.Bytes Common.Codec Edf.Model Edf.Proofs Edf.Negotiate Edf.NegotiateProofs Edf.Flag Edf.FlagProofs.
 Local Open Scope N_scope.
 
 (* For every option set a handshake can produce (unique cache ids in their ranges), every type and
@@ -181,3 +181,80 @@ Example C11_negotiated_example :
   dec_error (dec_opts ex_nego) [128; 2] = Ok (VErr (Some (foreign 32770)) [99], []).
 Proof. exact neg_example. Qed.
 Print Assumptions C11_negotiated_example.
+
+(* ---- the encodeType flag of the encoder's state object (Edf/Flag.v: the encoder with the mutable
+   stateEncode chain made explicit; encodeAny sets the flag and never restores it, nine loop positions
+   reset it) ------------------------------------------------------------------------------------------
+   With every reset in place, the bytes an encoder appends depend on the state object it is handed only
+   through that object's own flag - never on what previous siblings left in state.child and below - and
+   are those of the functional model [enc_val] the round-trip theorem is stated for *)
+Theorem C11_flag_refines : forall f o t v s,
+  fl s = false \/ t <> TAny ->
+  out (enc_s all_resets f o t v s) = enc_val f o (fl s) t v.
+Proof. exact flag_refines. Qed.
+Print Assumptions C11_flag_refines.
+
+(* Encode with the explicit state = the Encode of C11_roundtrip_partial *)
+Theorem C11_encode_stateful : forall o t v, t <> TAny -> encode_s all_resets o t v = encode o t v.
+Proof. exact encode_s_encode. Qed.
+Print Assumptions C11_encode_stateful.
+
+Theorem C11_sibling_independent : forall f o t v s1 s2,
+  fl s1 = fl s2 -> fl s1 = false \/ t <> TAny ->
+  out (enc_s all_resets f o t v s1) = out (enc_s all_resets f o t v s2).
+Proof. exact sibling_independent. Qed.
+Print Assumptions C11_sibling_independent.
+
+(* the items of a container, whatever the shared child state carries when the loop starts *)
+Theorem C11_container_items_clean : forall f o t l c,
+  out (loop_s true (enc_s all_resets f o t) l c) = enc_all (enc_val f o false t) l.
+Proof. exact container_items_clean. Qed.
+Print Assumptions C11_container_items_clean.
+
+(* who changes the flag: nobody but encodeAny (for every variant [d] of the resets) *)
+Theorem C11_own_flag_restored : forall d f o t v s b s',
+  t <> TAny -> enc_s d f o t v s = Ok (b, s') -> fl s' = fl s.
+Proof. exact own_flag_restored. Qed.
+Print Assumptions C11_own_flag_restored.
+
+Theorem C11_any_leaks : forall d f o p v s b s',
+  enc_s d (S (S f)) o TAny (VAny (TPrim p) v) s = Ok (b, s') -> fl s' = true.
+Proof. exact any_leaks. Qed.
+Print Assumptions C11_any_leaks.
+
+(* a container encoder that forgets one reset: the statement "the bytes do not depend on what the
+   previous sibling left" is false for it ... *)
+Theorem C11_flag_independence_refuted :
+  exists d f o t v s1 s2, fl s1 = fl s2 /\ t <> TAny /\
+    out (enc_s d f o t v s1) <> out (enc_s d f o t v s2).
+Proof. exact flag_independence_refuted. Qed.
+Print Assumptions C11_flag_independence_refuted.
+
+(* ... and the round trip breaks on a supported value.  register.go:576 (registered map, before the
+   value) dropped: type M map[any]int8, M{"k": 5} comes back as M{"k": -110} with one byte unread *)
+Theorem C11_reset_needed_regmap_value :
+  rt_breaks no_rmapval fw_opts fw_mapval_t fw_mapval_v /\
+  exists bs, encode_s no_rmapval fw_opts fw_mapval_t fw_mapval_v = Ok bs /\
+             decode (dual fw_opts) bs = Ok (fw_mapval_t, VMap [(any_str [107], VInt (-110))], [5]).
+Proof. exact reset_needed_regmap_value. Qed.
+Print Assumptions C11_reset_needed_regmap_value.
+
+(* the other eight resets, one witness each: registered map key, registered slice / array item (after a
+   sibling []any), struct field, and the four of the unnamed containers *)
+Theorem C11_reset_needed_all :
+  rt_breaks no_rmapkey fw_opts fw_mapkey_t fw_mapkey_v /\ rt_breaks no_rslice fw_opts fw_rslice_t fw_rslice_v /\
+  rt_breaks no_rarray fw_opts fw_rarray_t fw_rarray_v /\ rt_breaks no_field fw_opts fw_field_t fw_field_v /\
+  rt_breaks no_mapval fw_opts fw_gmapval_t fw_mapval_v /\ rt_breaks no_mapkey fw_opts fw_gmapkey_t fw_mapkey_v /\
+  rt_breaks no_slice fw_opts fw_gslice_t fw_rslice_v /\ rt_breaks no_array fw_opts fw_garray_t fw_rarray_v.
+Proof.
+  exact (conj reset_needed_regmap_key (conj reset_needed_regslice (conj reset_needed_regarray (conj reset_needed_struct_field
+        (conj reset_needed_map_value (conj reset_needed_map_key (conj reset_needed_slice reset_needed_array))))))).
+Qed.
+Print Assumptions C11_reset_needed_all.
+
+Example C11_flag_example :
+  out (enc_s all_resets 8 fw_opts fw_field_t fw_field_v [false; true; true]) = enc_val 8 fw_opts false fw_field_t fw_field_v /\
+  enc_val 8 fw_opts false fw_field_t fw_field_v = Ok [141; 0; 1; 120; 0; 1; 121] /\
+  enc_s all_resets 8 fw_opts TAny (any_str [120]) [false; false] = Ok ([141; 0; 1; 120], [true]).
+Proof. exact flag_example. Qed.
+Print Assumptions C11_flag_example.
